@@ -113,6 +113,7 @@ def check(case, ctx):
         U2 = U1 @ O.axis_angle([0.3, -0.5, 0.8], case["small"])
         ctx.event("small-misorientation")
     Q = S.build_rotation(case["q"]) + 0.0
+    U1, U2 = O.ro(U1), O.ro(U2)
     R = np.asarray(symmetry.rotations(k), float)
     P = np.asarray(symmetry.permutations(k), float)
     j, kk = case["j"] % N, case["k"] % N
